@@ -441,7 +441,7 @@ struct World
           sim::violate("audit:duplicate-node", "after set(" + path_str(p) + "," + level_name(v) + ") get reports " + level_name(got));
       }
     if (res.tsan_reports != 0)
-      sim::violate("tsan:data-race", std::to_string(res.tsan_reports) + " ThreadSanitizer report(s) during the concurrent phase (see the report text in the replay output)");
+      sim::violate(std::string("tsan:") + sim::sched::tsan_first_report_kind(), std::to_string(res.tsan_reports) + " ThreadSanitizer report(s) during the concurrent phase (see the report text in the replay output)");
     unsigned executed = 0;
     for (auto const &f : fs)
       for (OpInfo const &i : f.info)
